@@ -534,6 +534,11 @@ public:
             // because we want to extend the last vector we must not shrink its max memory usage
             // in order to ensure the missing memory
             ensureMem(newmax - ps->max(), false);
+
+            // ensureMem() may have run memPack(), which shrinks ps->max() to ps->size(): the difference has grown
+            if(memSize() + newmax - ps->max() > memMax())
+               ensureMem(newmax - ps->max(), false);
+
 #ifndef NDEBUG
             Nonzero<R>* olddata = SVSetBaseArray::data;
             SVSetBaseArray::insert(memSize(), newmax - ps->max());
